@@ -550,6 +550,35 @@ class WcsSampler(object):
         lat_min = refine_lat(np.argmin)
         lat_max = refine_lat(np.argmax)
 
+        # If a celestial pole lies inside the image, the true latitude extremum
+        # is the pole itself, which a search at pixel resolution will generally
+        # not hit exactly. Tiles right around the pole would then fall outside
+        # of the bounds even though they are covered by the image.
+
+        for pole_lat in (90.0, -90.0):
+            pole_pix = self._wcs.wcs_world2pix([[0.0, pole_lat]], 1)[0]
+
+            if not np.all(np.isfinite(pole_pix)):
+                continue
+
+            # Guard against projections that also map the far hemisphere
+            # onto the image plane.
+            roundtrip = self._wcs.wcs_pix2world([pole_pix], 1)[0]
+
+            if abs(roundtrip[1] - pole_lat) > 1e-6:
+                continue
+
+            if (
+                pole_pix[0] >= 0.5
+                and pole_pix[0] <= naxis1 + 0.5
+                and pole_pix[1] >= 0.5
+                and pole_pix[1] <= naxis2 + 0.5
+            ):
+                if pole_lat > 0:
+                    lat_max = HALFPI
+                else:
+                    lat_min = -HALFPI
+
         # Longitudes are annoying since we need to make sure they're unwrapped.
         # On the other hand, I can't think of a non-pathological way in which an
         # image's maximum longitude would occur anywhere other than its edge.
